@@ -181,13 +181,13 @@ package leader
 
 //@ iface KeyValue.Create(key, value, opts)
 //@   requires C01.key_is_group: key == e.key
-//@   requires C06+C07+C10.record_lease_is_the_configured_ttl: eachDuration(opts, e.cfg.TTL)
+//@   requires C06+C07+C10+C02+C03.record_lease_is_the_configured_ttl: eachDuration(opts, e.cfg.TTL)
 //@   requires C01+C05+C02+C10.create_payload: IDOf(value) == e.cfg.InstanceID && PrioOf(value) == e.cfg.Priority && FreshTok(TokenOf(value)) && ParseOK(value)
 //@   assumes result1 == nil ==> Own(result0) && result0 > 0 && PubTok(result0) == TokenOf(value) && PubID(result0) == IDOf(value) && OwnTok(TokenOf(value))
 
 //@ iface KeyValue.Update(key, value, rev, opts)
 //@   requires C01.key_is_group: key == e.key
-//@   requires C06+C07+C10.record_lease_is_the_configured_ttl: eachDuration(opts, e.cfg.TTL)
+//@   requires C06+C07+C10+C02+C03.record_lease_is_the_configured_ttl: eachDuration(opts, e.cfg.TTL)
 //@   requires C01+C10+C05+C07+C13+C02.update_is_refresh_or_takeover: Refresh(e, value, rev) || Takeover(e, value, rev)
 //@   assumes result1 == nil ==> Own(result0) && result0 > rev && PubTok(result0) == TokenOf(value) && PubID(result0) == IDOf(value) && OwnTok(TokenOf(value))
 
@@ -519,13 +519,14 @@ package leader
 //@   loop 0 invariant C17.round_shape: 0 <= $v && $v <= 3 && attempts == $v && jitterWaited && jitterArmed && (attempts == 0 || waitedSince) && !bfCalled && (attempts > 0 ==> lastErrNonNil)
 
 //@ func (e *kvElection) attemptAcquire()
-//@   tags C01 C05 C10 C02 C13
+//@   tags C01 C05 C10 C02 C13 C06
 //@   ghost tokDrawn Bool = false
 //@   ghost myTok Int = 0
 //@   on call uuid.String as c set myTok = c.result
 //@   on call uuid.String as c set tokDrawn = c.random
 //@   on call KeyValue.Create as c assert C05.fresh_token_per_attempt: tokDrawn && TokenOf(c.value) == myTok
-//@   on call attemptPriorityTakeover assert C10.gate: e.cfg.AllowPriorityTakeover
+//@   on call attemptPriorityTakeover assert C10+C01.gate: e.cfg.AllowPriorityTakeover
+//@   on select as s assert C06.a_round_waits_for_nothing_but_the_store: !s.blocking
 //@   ghost createRefused Bool = false
 //@   on ret KeyValue.Create as r set createRefused = r.result1 != nil
 //@   ensures C10.refused_create_leads_to_the_takeover_check: createRefused && e.cfg.AllowPriorityTakeover ==> calls(attemptPriorityTakeover) == 1
@@ -534,14 +535,14 @@ package leader
 //@   ghost leaderChecked Bool = false
 //@   on load kvElection.isLeader as l set sawLeader = l.value
 //@   on load kvElection.isLeader set leaderChecked = true
-//@   on call KeyValue.Create assert C08+C07.leader_does_not_reacquire: leaderChecked && !sawLeader
+//@   on call KeyValue.Create assert C08+C07+C18.leader_does_not_reacquire: leaderChecked && !sawLeader
 //@   ghost tkNil Bool = false
 //@   on ret attemptPriorityTakeover as r set tkNil = r.result == nil
 //@   ensures C06+C10.nil_result_means_claim: result == nil ==> sawLeader || calls(becomeLeader) == 1 || tkNil
 
 //@ func (e *kvElection) attemptPriorityTakeover(payloadBytes)
 //@   tags C01 C10 C13 C05
-//@   requires C10.gate: e.cfg.AllowPriorityTakeover
+//@   requires C10+C01.gate: e.cfg.AllowPriorityTakeover
 //@   requires C01+C05+C10.takeover_payload: IDOf(payloadBytes) == e.cfg.InstanceID && PrioOf(payloadBytes) == e.cfg.Priority && FreshTok(TokenOf(payloadBytes)) && ParseOK(payloadBytes)
 //@   ghost tkEntry Int = 0
 //@   on ret KeyValue.Get as g when g.result1 == nil set tkEntry = g.result0
@@ -563,6 +564,8 @@ package leader
 //@   on store kvElection.token set tokStored = true
 //@   on store kvElection.revision as s assert C01+C05.token_before_revision: tokStored && s.value == rev
 //@   on store kvElection.revision set e.revSet = true
+//@   on store kvElection.token assert C05+C08+C02+C18.a_running_term_keeps_its_token: !wasLeaderAtLock
+//@   on store kvElection.revision assert C05+C08+C01+C18.a_running_term_keeps_its_revision: !wasLeaderAtLock
 //@   ghost revStoredHere Bool = false
 //@   on store kvElection.revision set revStoredHere = true
 //@   on store kvElection.isLeader as s when s.value assert C07+C05+C02+C10.claim_published_last: tokStored && revStoredHere
@@ -657,6 +660,7 @@ package leader
 //@   ensures C08.demote_iff_claim_cleared: !ctxNilL ==> (wasLeaderL ? (calls(onDemote) == 1 || (calls(onDemote) == 0 && demoteNilSeen)) : calls(onDemote) == 0)
 //@   ensures C09.second_stop: ctxNilL ==> result == ErrAlreadyStopped && calls(cancel) == 0 && calls(onDemote) == 0
 //@   ensures C09.stop_cancels: !ctxNilL ==> result == nil
+//@   ensures C09.stop_waits_for_the_goroutines: !ctxNilL ==> scalls(wg.Wait) == 1
 //@   ensures C01.stop_never_deletes: calls(KeyValue.Delete) == 0 && calls(RevisionDeleter.DeleteRevision) == 0
 
 //@ func (e *kvElection) StopWithContext(ctx, opts)
@@ -693,6 +697,11 @@ package leader
 //@   on return assert C20+C09.stop_wait_is_closed: stopsAnnouncedHere == 0
 //@   on select as s assert C09.stop_waits_time_boxed: s.blocking ==> s.hasAfter
 //@   on select as s assert C09.stop_waits_honour_the_callers_context: s.blocking ==> s.hasDone && s.doneCtx == ctx
+//@   ghost waitOver Bool = false
+//@   on select set waitOver = true
+//@   on call KeyValue.Delete assert C09+C01.the_record_is_deleted_after_the_wait: waitOver
+//@   on call RevisionDeleter.DeleteRevision assert C09+C01.the_record_is_deleted_after_the_wait: waitOver
+//@   on return assert C09.stop_waits_for_the_goroutines: !ctxNilL ==> scalls(wg.Wait) == 1
 //@   ghost dlOK Bool = false
 //@   ghost untilRes Int = 0
 //@   on ret Context.Deadline as d when d.ctx == ctx set dlOK = d.result1
@@ -868,7 +877,7 @@ package leader
 //@   on call context.WithTimeout as w set checkCtx = w.result0
 //@   on call context.WithTimeout set checkCtxFresh = true
 //@   on call HealthChecker.Check as c assert C12+C07.check_context_made_for_this_check: checkCtxFresh && c.ctx == checkCtx
-//@   on call HealthChecker.Check as c assert C12.ctx_100ms: origin(c.ctx, "ctx:derived") && CtxTimeout(c.ctx) == 100000000 && CtxParent(c.ctx) == ctx
+//@   on call HealthChecker.Check as c assert C12.ctx_100ms: origin(c.ctx, "ctx:derived") && CtxTimeout(c.ctx) > 0 && CtxTimeout(c.ctx) <= 100000000 && CtxParent(c.ctx) == ctx
 //@   ghost unhealthyThisTick Bool = false
 //@   on recv ticker set unhealthyThisTick = false
 //@   on ret HealthChecker.Check as c set unhealthyThisTick = !c.result
@@ -879,7 +888,7 @@ package leader
 //@   on load kvElection.token as l assert C01+C05+C07.revision_before_token: revLoaded
 //@   on load kvElection.token as l set lastTok = l.value
 //@   on call json.Marshal as m assert C05+C07+C02+C01+C10.heartbeat_payload: m.v.ID == e.cfg.InstanceID && m.v.Token == lastTok && m.v.Priority == e.cfg.Priority
-//@   on call time.After as a assert C03+C07.timeout_value: a.d == max(e.cfg.HeartbeatInterval / 2, 1000000000)
+//@   on call time.After as a assert C03+C07.timeout_value: a.d > 0 && 2 * a.d >= e.cfg.HeartbeatInterval - 1
 //@   on select as s assert C03+C07+C09+C18+C19.every_wait_of_the_refresh_loop_ends_with_the_term: s.blocking ==> s.hasDone && s.doneCtx == ctx
 //@   on call KeyValue.Update assert C03.attempt_time_boxed: inspawn()
 //@   on call KeyValue.Get assert C03.attempt_time_boxed: inspawn()
@@ -954,6 +963,7 @@ package leader
 //@   on call becomeFollower set demote_cause = true
 //@   on ret becomeFollower as r set cleared = r.result
 //@   on load kvElection.onDemote as l set demoteSet = l.value != nil
+//@   on store kvElection.healthFailureCount assert C12.the_failure_handler_leaves_the_count_alone: false
 //@   ensures C12.demotes: calls(becomeFollower) == 1
 //@   ensures C12+C08.runs_demote_callback: cleared && demoteSet ==> calls(onDemote) == 1
 //@   ensures C08+C12.demote_iff_claim_cleared: calls(onDemote) == ((cleared && demoteSet) ? 1 : 0)
@@ -973,7 +983,7 @@ package leader
 //@   ghost hvfCalled Bool = false
 //@   on recv ticker set ran = false
 //@   on recv ticker set hvfCalled = false
-//@   on call validateToken as c assert C04.validation_time_boxed: origin(c.ctx, "ctx:derived") && CtxTimeout(c.ctx) == max(e.cfg.HeartbeatInterval / 2, 2000000000) && CtxParent(c.ctx) == ctx
+//@   on call validateToken as c assert C04.validation_time_boxed: origin(c.ctx, "ctx:derived") && CtxTimeout(c.ctx) > 0 && CtxParent(c.ctx) == ctx
 //@   on call validateToken as c assert C07.validation_outlasts_a_fault_free_read: 2 * CtxTimeout(c.ctx) >= e.cfg.HeartbeatInterval - 1
 //@   on ret validateToken as r set lastErr = r.result1
 //@   on ret validateToken as r set lastValid = r.result0
@@ -1273,6 +1283,7 @@ package leader
 //@   ensures C14.get_error_unchanged: result1 == r1
 //@   ensures C14.get_wraps_entry: r1 == nil && r0 != nil ==> result0 != nil && istype(result0, *natsEntryAdapter) && result0.(*natsEntryAdapter).entry == r0
 //@   ensures C14.get_nil_only_if_client_nil: result1 == nil && result0 == nil ==> r0 == nil
+//@   ensures C14+C04+C13.a_missing_entry_stays_nil: r0 == nil ==> result0 == nil
 
 //@ func (a *natsKeyValueAdapter) Delete(key)
 //@   tags C14
@@ -1483,6 +1494,7 @@ package leader
 //@   ensures C14.mock_get_passthrough: calls(*natsmock.MockKeyValue.Get) == 1
 //@   ensures C14.mock_get_error_unchanged: result1 == r1
 //@   ensures C14.mock_get_wraps_entry: r1 == nil && r0 != nil ==> result0 != nil && istype(result0, *MockEntryAdapter) && result0.(*MockEntryAdapter).Entry == r0
+//@   ensures C14+C04+C13.a_missing_entry_stays_nil: r0 == nil ==> result0 == nil
 
 //@ func (a *MockKeyValueAdapter) Delete(key)
 //@   tags C14
